@@ -20,6 +20,8 @@ import (
 	"os"
 	"strings"
 	"time"
+
+	"github.com/la5nta/wl2k-go/transport/ardop"
 )
 
 func init() {
@@ -62,7 +64,57 @@ func runChildC14(path string) {
 	}
 }
 
+// childLinkLoss: the serial link to the TNC dies while a data frame is half way out (slow link), then the
+// application writes once more. Write must return (an error or a count) both times; nothing may panic.
+func childLinkLoss() string {
+	host, tncEnd := newMemPipe(nil, nil)
+	sim := newArdopSim(false, tncEnd, nil)
+	slow := &slowLink{memConn: host}
+	var tnc *ardop.TNC
+	var err error
+	if hang, pv := c14Watch1(c14Watch, func() { tnc, err = ardop.Open(slow, "N0CALL", "JP20QE") }); hang || pv != nil || err != nil {
+		host.Kill()
+		return fmt.Sprintf("open-failed:%v,%v,%v", hang, pv, err)
+	}
+	env := &c14Env{sim: sim, tnc: tnc, host: host, ptt: &pttRec{}}
+	if err := env.dial(); err != nil {
+		host.Kill()
+		return "dial-failed:" + err.Error()
+	}
+	slow.setSlow(true)
+	write := func(p []byte) string {
+		res := make(chan string, 1)
+		go func() {
+			defer func() {
+				if pv := recover(); pv != nil {
+					res <- fmt.Sprintf("panicked(%v)", pv)
+				}
+			}()
+			n, err := env.conn.Write(p)
+			res <- fmt.Sprintf("returned(%d,%v)", n, err != nil)
+		}()
+		select {
+		case r := <-res:
+			return r
+		case <-time.After(3 * time.Second):
+			return "hang"
+		}
+	}
+	first := make(chan string, 1)
+	go func() { first <- write(make([]byte, 2000)) }()
+	time.Sleep(4 * time.Millisecond) // the first half of the frame is on the wire
+	host.Kill()                      // the link dies
+	r1 := <-first
+	time.Sleep(30 * time.Millisecond)
+	r2 := write([]byte("after the loss"))
+	time.Sleep(40 * time.Millisecond)
+	return "write1=" + r1 + " write2=" + r2 + " alive"
+}
+
 func childOneC14(tcp bool, flow string, ctrl, data []byte) string {
+	if flow == "linkloss" {
+		return childLinkLoss()
+	}
 	env, err := c14Open(tcp, nil)
 	if err != nil {
 		return "open-failed:" + err.Error()
